@@ -18,7 +18,7 @@ pub fn shrink(prop: &dyn Prop, idx: u64, tape: &TapeData, sig: &str) -> TapeData
     let mut best = tape.clone();
     let mut budget = BUDGET;
     let started = std::time::Instant::now();
-    let mut try_it = |cand: TapeData, best: &mut TapeData, budget: &mut usize| -> bool {
+    let try_it = |cand: TapeData, best: &mut TapeData, budget: &mut usize| -> bool {
         if started.elapsed() > TIME_CAP {
             *budget = 0;
         }
